@@ -5,6 +5,7 @@ import (
 	"encoding/binary"
 	"errors"
 	"fmt"
+	"sort"
 	"sync/atomic"
 
 	proto "github.com/kubewharf/kubebrain-client/api/v2rpc"
@@ -232,6 +233,22 @@ func runC08(c *harness.Case) {
 					c.Violatef("C08 range-read-at-or-above-floor-refused", wit(), "List at revision %d (floor %d) failed: %v", R, floor, lerr)
 				} else if !sameKVs(m.Snapshot(full, fullEnd, R), lr.Kvs) {
 					c.Violatef("C08 range-read-above-floor-differs", wit(), "List at revision %d (floor %d) = %s; snapshot %s", R, floor, kvStr(lr.Kvs), mkvStr(m.Snapshot(full, fullEnd, R)))
+				}
+				// the streamed range too (several 300-kv batches in the cases that hold many keys)
+				var skvs []*proto.KeyValue
+				sok := len(batches) > 0
+				for _, b := range batches {
+					if b.Err != "" {
+						sok = false
+					}
+					skvs = append(skvs, b.RangeResponse.GetKvs()...)
+				}
+				if sok {
+					sort.SliceStable(skvs, func(i, j int) bool { return bytes.Compare(skvs[i].Key, skvs[j].Key) < 0 })
+					if !sameKVs(m.Snapshot(full, fullEnd, R), skvs) {
+						c.Violatef("C08 streamed-range-above-floor-differs", wit(), "ListByStream at revision %d (floor %d) delivered %d kvs in %d messages which are not the snapshot (%d keys)", R, floor, len(skvs), len(batches), len(m.Snapshot(full, fullEnd, R)))
+					}
+					c.Stat("streamed_reads_compared", 1)
 				}
 			}
 		}
